@@ -80,17 +80,24 @@ func (t Translator) FromArrai(v rel.Value) (interface{}, error) {
 // objFromArraiDict converts a binary relation {|@,@item|, |key,val|, ...} to an object.
 func (t Translator) objFromArraiDict(v rel.Dict) (map[string]interface{}, error) {
 	maps := make(map[string]interface{})
-	for e := v.DictEnumerator(); e.MoveNext(); {
-		key, value := e.Current()
-		keydata, err := t.FromArrai(key)
+	for e := v.Enumerator(); e.MoveNext(); {
+		entry := e.Current().(rel.DictEntryTuple)
+		var name string
+		switch key := entry.MustGet("@").(type) {
+		case rel.String:
+			name = key.String()
+		case rel.EmptySet: // the empty string
+		default:
+			return nil, fmt.Errorf("FromArrai: dict key must be a string, not %s: %v", rel.ValueTypeAsString(key), key)
+		}
+		if _, has := maps[name]; has {
+			return nil, fmt.Errorf("FromArrai: dict key %q has more than one value", name)
+		}
+		valuedata, err := t.FromArrai(entry.MustGet(rel.DictValueAttr))
 		if err != nil {
 			return nil, err
 		}
-		valuedata, err := t.FromArrai(value)
-		if err != nil {
-			return nil, err
-		}
-		maps[keydata.(string)] = valuedata
+		maps[name] = valuedata
 	}
 	return maps, nil
 }
